@@ -82,6 +82,7 @@ class Ctx:
             for k, v in cov.items():
                 self.coverage_actions[f"{module}.{k}"] = self.coverage_actions.get(f"{module}.{k}", 0) + v[1]
         self.design.append(rec)
+        sys.stderr.write(f"[vf] design {module}: {r.distinct} states {r.wall:.1f}s\n")
         self.states += r.distinct
         self.transitions += r.transitions
         if r.error or r.rc == 124:
@@ -124,6 +125,7 @@ class Ctx:
             for i in range(len(part)):
                 bad = verdicts[i + 1]
                 results.append((len(bad) == 0, bad))
+            sys.stderr.write(f"[vf] validate {module}: {len(part)} traces, {r.distinct} states {r.wall:.1f}s\n")
             self.trace_states += r.distinct
             self.states += r.distinct
             self.transitions += r.transitions
